@@ -42,6 +42,7 @@ pub struct Shared {
 	pub rsa_ca_b: Certificate,  // ... under two RSA keys of the same size (a CA key roll-over)
 	pub k_rsa3: LiveKey,        // RSA-3072, loaded through the algorithm-detecting entry point where the build has one
 	pub k_ed_copy: LiveKey,     // the key of `k_ed` loaded a second time: an equal key in another object
+	pub issuer_h: Certificate,  // the name and key of `issuer` with a hash-derived key identifier
 }
 
 fn key_from_file(dir: &str, name: &str, alg: &str, remote: bool) -> LiveKey {
@@ -127,6 +128,10 @@ fn cert_template(t: &str) -> Value {
 		// the shortest key identifier a caller can give
 		p["kid"] = json!({"k": "pre", "b": []});
 	}
+	if t.contains("/hash/") {
+		// an issuer whose key identifier is a hash, a subject with another hash ("/2"), the issuer's own key as subject key
+		p["dn"] = json!([{"ty": "2.5.4.3", "kind": "utf8", "val": text("certificate for the signing key itself")}]);
+	}
 	if t.ends_with("/ns") {
 		// validity bounds with a sub-second part, one of them beyond 2049 (GeneralizedTime): what is encoded has whole seconds,
 		// what the returned object reports is what was given
@@ -185,7 +190,10 @@ pub fn setup(dir: &str, remote: bool) -> Shared {
 		live_from_info(info, if remote || !cfg!(feature = "crypto") { "remote" } else { "auto-pkcs8" }).unwrap()
 	};
 	let k_ed_copy = key_from_file(dir, "ked", "ed25519", remote);
-	Shared { k_ed, k_rsa, k_p256, issuer, issuer_snapshot: snap, k_ed2, k_rsa2, issuer_n2, issuer_k2, rsa_ca_a, rsa_ca_b, k_rsa3, k_ed_copy }
+	let mut iph = issuer_desc(&rich_dn(), &kid(true, "sha256"));
+	iph["ku"] = json!([5, 6]);
+	let issuer_h = to_params(&iph).unwrap().self_signed(&k_ed.kp).unwrap();
+	Shared { issuer_h, k_ed, k_rsa, k_p256, issuer, issuer_snapshot: snap, k_ed2, k_rsa2, issuer_n2, issuer_k2, rsa_ca_a, rsa_ca_b, k_rsa3, k_ed_copy }
 }
 
 fn shared_snapshot(k: &LiveKey, issuer: &Certificate) -> String {
@@ -194,6 +202,9 @@ fn shared_snapshot(k: &LiveKey, issuer: &Certificate) -> String {
 
 /// the issuer certificate and signing key of an issued-certificate / CRL template
 fn issuer_of<'a>(t: &str, sh: &'a Shared) -> (&'a Certificate, &'a LiveKey) {
+	if t.contains("/hash/") {
+		return (&sh.issuer_h, &sh.k_ed);
+	}
 	match t.rsplit('/').next().unwrap() {
 		"n2" => (&sh.issuer_n2, &sh.k_ed),
 		"k2" => (&sh.issuer_k2, &sh.k_ed2),
@@ -380,7 +391,7 @@ pub fn interfere(x: &str, sh: &Shared, rng: &mut Rng) {
 	});
 }
 
-pub const TEMPLATES: [&str; 25] = ["cert-issued/ns", "cert-self/ns", "cert-self/s20", "cert-issued/s20", "crl/s20", "cert-self/rm", "csr/rm", "cert-issued/auto/2", "cert-self/r3", "cert-self/e0", "crl/e0", "cert-self/1", "cert-self/2", "cert-issued/1", "cert-issued/2", "csr/1", "csr/2", "crl/1", "crl/2",
+pub const TEMPLATES: [&str; 26] = ["cert-issued/hash/2", "cert-issued/ns", "cert-self/ns", "cert-self/s20", "cert-issued/s20", "crl/s20", "cert-self/rm", "csr/rm", "cert-issued/auto/2", "cert-self/r3", "cert-self/e0", "crl/e0", "cert-self/1", "cert-self/2", "cert-issued/1", "cert-issued/2", "csr/1", "csr/2", "crl/1", "crl/2",
 	"cert-issued/n2", "cert-issued/k2", "cert-issued/ra", "cert-issued/rb", "crl/n2", "crl/k2"];
 /// cheap templates (Ed25519 signers) that alternate between issuers differing in one component: hammered by the hot phase
 pub const HOT: [&str; 7] = ["cert-issued/1", "cert-issued/n2", "cert-issued/k2", "crl/1", "crl/n2", "crl/k2", "cert-issued/auto/2"];
